@@ -127,13 +127,17 @@ def resMatch (s : St) (op : Op) (model : Res) (impl : Json) : Bool :=
     let allowed := (cands.filter fun w => okW w && labelsFilter w.labels ls).flatMap fun w =>
       (cands.filter (·.id == w.id)).map fun w' => w.render ++ "|" ++ statusText s w'
     let broken := cands.any fun w => !okW w
-    let passing := (cands.filter fun w => labelsFilter w.labels ls).length
+    -- without a limit the label filter runs before bindWorkloadsAdditions: only records that pass
+    -- the filter can make the call fail
+    let passing := cands.filter fun w => labelsFilter w.labels ls
+    let brokenP := passing.any fun w => !okW w
+    let errOk := jstr (jget impl "err") == "notfound" || jstr (jget impl "err") == "bad-name"
     if jhas impl "ok" then
       let got := strs (jget impl "ok")
       got.all (allowed.contains ·) &&
-        (if lim == 0 then !broken && got.length == passing
+        (if lim == 0 then !brokenP && got.length == passing.length
          else got.length ≤ lim && (!ls.isEmpty || broken || got.length == min lim cands.length))
-    else broken && (jstr (jget impl "err") == "notfound" || jstr (jget impl "err") == "bad-name")
+    else (if lim == 0 then brokenP else broken) && errOk
   | _ => resJson model == impl
 
 /-- one status key: specification, etcd protocol model, Redis protocol model (Eru/Store/Status.lean) -/
